@@ -133,7 +133,11 @@ def run_case(case):
 
     def f(t, x):
         d = ref.rhs(sp, dict(zip(species, x)), sp["params"], t)
-        return np.array([d[s] for s in species])
+        v = np.array([d[s] for s in species])
+        if np.iscomplexobj(v):
+            # a non-integer power of a state the integrator has stepped below 0: the equations are not defined there
+            raise ref.Undefined("rate undefined at a negative state")
+        return v
 
     # reference
     try:
@@ -165,7 +169,25 @@ def run_case(case):
     except (ref.Undefined, OverflowError, ZeroDivisionError, ValueError, FloatingPointError):
         C["skipped_ill_conditioned"] += 1
         return {"viol": [], "counters": dict(C), "nontrivial": False}
-    tol = 2e-5 * scale
+    # "to within the integrator's tolerance": what LSODA at the library's (default) tolerances delivers on THESE equations is
+    # measured with an independent scipy.odeint run on the reference right-hand side.  Where that run leaves the domain of the
+    # equations (non-integer power of a state that decays to 0) or is itself off by more than 1e-3 (strong error amplification),
+    # the case is outside "solvable to the integrator's tolerance" and is not judged; a moderate amplification widens the band.
+    import warnings
+    from scipy.integrate import odeint
+    try:
+        with warnings.catch_warnings():
+            warnings.simplefilter("error")
+            o = odeint(lambda x, t: f(t, x), x0, tp)
+        amp = np.abs(o - ref1).max(axis=0)
+        if not np.isfinite(o).all() or (amp > 1e-3 * scale).any():
+            raise ref.Undefined("beyond the integrator's tolerance")
+    except Exception:
+        C["skipped_beyond_integrator_tolerance"] += 1
+        return {"viol": [], "counters": dict(C), "nontrivial": False}
+    tol = np.maximum(2e-5 * scale, 3 * amp)
+    if (3 * amp > 2e-5 * scale).any():
+        C["cases_with_widened_band"] += 1
     moves = bool((np.abs(ref1 - x0).max(axis=0) > 0.1 * scale).any())
     runs = {}
     calls = {
